@@ -51,15 +51,15 @@ def text_at(lines, loc, n):
     return lines[l - 1][c:c + n]
 
 
-def header(kind: int, name: str, ind: int, n1: int, n2: int, deco: int) -> bool:
+def header(kind: int, name: str, ind: int, n1: int, n2: int, deco: int, cont: int = 0) -> bool:
     """
     pre: 0 <= kind <= 2
     pre: ok_name(name, 1, 3)
-    pre: 0 <= ind <= 1 and 1 <= n1 <= 3 and 0 <= n2 <= 2 and 0 <= deco <= 1
+    pre: 0 <= ind <= 1 and 1 <= n1 <= 3 and 0 <= n2 <= 2 and 0 <= deco <= 1 and 0 <= cont <= 1
     post: _
     """
     PATHS[0] += 1
-    kind, ind, n1, n2, deco = _c(kind, 0, 2), _c(ind, 0, 1), _c(n1, 1, 3), _c(n2, 0, 2), _c(deco, 0, 1)
+    kind, ind, n1, n2, deco, cont = _c(kind, 0, 2), _c(ind, 0, 1), _c(n1, 1, 3), _c(n2, 0, 2), _c(deco, 0, 1), _c(cont, 0, 1)
     indent = ' ' * (4 * ind)
     if kind == 0:
         kw = 'def'
@@ -67,15 +67,20 @@ def header(kind: int, name: str, ind: int, n1: int, n2: int, deco: int) -> bool:
         kw = 'async def'
     else:
         kw = 'class'
-    head = indent + kw + ' ' * n1 + name + ' ' * n2 + ('(object):' if kind == 2 else '(self):')
+    tail = name + ' ' * n2 + ('(object):' if kind == 2 else '(self):')
     lines = []
     if ind:
         lines.append('class outer:')
     if deco:
         lines.append(indent + '@deco')
-    lines.append(head)
+    if cont:
+        # backslash continuation between the keyword and the name
+        lines.append(indent + kw + ' ' + chr(92))
+        lines.append(' ' * n1 + tail)
+    else:
+        lines.append(indent + kw + ' ' * n1 + tail)
     lines.append(indent + '    pass')
-    hl = len(lines) - 1          # 1-based line of the header
+    hl = len(lines) - 1 - cont   # 1-based line of the keyword
     if kind == 2:
         node = ast.parse('class f(object):\n    pass\n').body[0]
     elif kind == 1:
@@ -85,11 +90,11 @@ def header(kind: int, name: str, ind: int, n1: int, n2: int, deco: int) -> bool:
     node.name = name
     node.lineno = hl
     node.col_offset = 4 * ind
-    node.body[0].lineno = hl + 1
+    node.body[0].lineno = hl + 1 + cont
     node.body[0].col_offset = 4 * ind + 4
     top = scope_for(lines)
     sc = ClassScope(top, node, top) if kind == 2 else FuncScope(top, node, top)
-    want = (hl, 4 * ind + len(kw) + n1)
+    want = (hl + 1, n1) if cont else (hl, 4 * ind + len(kw) + n1)
     if TWIN[0]:
         return False
     return sc.declared_at[0] == want[0] and sc.declared_at[1] == want[1] and \
